@@ -43,7 +43,7 @@ REG.add(Contract(f"{MRA}.assert_applies", module=M_MRA, kind="method", params=di
                  properties=["C07", "C13", "C15"]))
 
 # ---------------------------------------------------------------- ModulePrefixer (string view)
-vals.declare_obj("ParsedDependencies", dict(all_modules="Set[Str]", dependencies="Dict[Str,Set[Str]]"))
+vals.declare_obj("ParsedDependencies", dict(all_modules="Set[Node]", dependencies="Dict[Node,Set[Node]]"))   # Node = Str in the string view
 REG.ctors["ParsedDependencies"] = None
 
 
@@ -98,27 +98,455 @@ REG.add(Contract(f"{PP}._get_unified_modules", module=M_DP, kind="classmethod", 
                  properties=["C06"]))
 REG.macro("by_alias_ok", ["modules", "A"],
           "forall(Str, lambda a: (a in A) == exists(PumlModule, lambda m: (m in modules) and (not is_none(pm_alias(m))) and unwrap(pm_alias(m)) == a))")
+# every alias stands for the name of SOME declaration that carries it
+REG.macro("alias_values_ok", ["modules", "A"],
+          "forall(Str, lambda a: implies(a in A, exists(PumlModule, lambda m: (m in modules) and (not is_none(pm_alias(m))) and unwrap(pm_alias(m)) == a and A[a] == pm_name(m))))")
 REG.add(Contract(f"{PP}._unify", module=M_DP, kind="method", view="string",
                  params=dict(self=PP, modules="Set[PumlModule]", dependencies="Dict[Str,Set[Str]]"), returns="Tuple[Set[Str],Dict[Str,Set[Str]]]",
                  # C06: the dependencies of a component are the union over ALL lines that name it as dependor -- by alias or by name --, every identifier resolved
-                 ensures=["exists(Dict[Str,Str], lambda A: by_alias_ok(modules, A) and "
+                 ensures=["exists(Dict[Str,Str], lambda A: by_alias_ok(modules, A) and alias_values_ok(modules, A) and "
                           "forall(Str, lambda k: (k in result[1]) == exists(Str, lambda d: (d in dependencies) and k == resolved(A, d))) and "
-                          "forall(Str, Str, lambda k, x: implies(k in result[1], (x in result[1][k]) == exists(Str, Str, lambda d, e: (d in dependencies) and resolved(A, d) == k and (e in dependencies[d]) and x == resolved(A, e)))))"],
+                          "forall(Str, Str, lambda k, x: implies(k in result[1], (x in result[1][k]) == exists(Str, Str, lambda d, e: (d in dependencies) and resolved(A, d) == k and (e in dependencies[d]) and x == resolved(A, e)))))",
+                          # components = declared names + dependors + dependees (all resolved)
+                          "forall(Str, lambda x: (x in result[0]) == (exists(PumlModule, lambda m: (m in modules) and x == pm_name(m)) or (x in result[1]) "
+                          "or exists(Str, lambda k: (k in result[1]) and (x in result[1][k]))))"],
                  locals=dict(unified_dependencies="Dict[Str,Set[Str]]", unified_dependees="Set[Str]"),
                  loops={0: dict(sig="for (dependor, dependees) in dependencies.items()", invariant=[
                      "forall(Str, lambda k: (k in unified_dependencies) == exists(Str, lambda d: ((d, dependencies[d]) in seen) and k == resolved(all_aliases, d)))",
                      "forall(Str, Str, lambda k, x: implies(k in unified_dependencies, (x in unified_dependencies[k]) == exists(Str, Str, lambda d, e: ((d, dependencies[d]) in seen) and resolved(all_aliases, d) == k and (e in dependencies[d]) and x == resolved(all_aliases, e))))"])},
+                 # the witness of the existential: the alias map the function computed (each conjunct is an obligation of its own first)
+                 ghost_at={"return (unified_modules, unified_dependencies)": [
+                     "by_alias_ok(modules, all_aliases)", "alias_values_ok(modules, all_aliases)",
+                     "forall(Str, lambda k: (k in unified_dependencies) == exists(Str, lambda d: (d in dependencies) and k == resolved(all_aliases, d)))",
+                     "forall(Str, Str, lambda k, x: implies(k in unified_dependencies, (x in unified_dependencies[k]) == exists(Str, Str, lambda d, e: (d in dependencies) and resolved(all_aliases, d) == k and (e in dependencies[d]) and x == resolved(all_aliases, e))))"]},
                  properties=["C06"]))
 
 # ---------------------------------------------------------------- DependencyToRuleConverter._generate_rule (C07): the rule generated for one component with arrows
 M_D2R = "pytestarch.diagram_extension.dependency_to_rule_converter"
 vals.declare_obj("DependencyToRuleConverter", dict(_should_only_rule="Bool"))
 D2R = "DependencyToRuleConverter"
+# the class object DefaultRuleMatcher as a value (the same constant the engine uses for the global name, cf. Registry.global_value)
+REG.specfuns["class_DefaultRuleMatcher"] = lambda eng, st: V(("opaque", "Class"), z3.Const("class_DefaultRuleMatcher", vals.sort_of(("opaque", "Class"))))
 REG.add(Contract(f"{D2R}._generate_rule", module=M_D2R, kind="method", params=dict(self=D2R, importer="Node", importees="Set[Node]"), returns="Rule",
                  # C07: 'a imports exactly its drawn targets': subject a (by name), verb should_only in the default mode / should otherwise, direction import, objects = the drawn targets
                  ensures=["forall(Filter, lambda f: (f in unwrap(result._configuration.modules_to_check)) == (f == mk_filter_name(importer)))",
                           "not is_none(result._configuration.modules_to_check)", "not is_none(result._configuration.modules_to_check_against)",
                           "forall(Filter, lambda f: (f in unwrap(result._configuration.modules_to_check_against)) == exists(Node, lambda t: (t in importees) and f == mk_filter_name(t)))",
                           "result._configuration.should_only == self._should_only_rule", "result._configuration.should == (not self._should_only_rule)", "not result._configuration.should_not",
-                          "result._configuration.import_ == True", "not result._configuration.except_present", "not result._configuration.rule_object_anything"],
+                          "result._configuration.import_ == True", "not result._configuration.except_present", "not result._configuration.rule_object_anything",
+                          "result._modules_to_check_to_be_specified_next == False", "result._rule_matcher_class == class_DefaultRuleMatcher()"],
                  properties=["C07"]))
+
+# ---------------------------------------------------------------- DependencyToRuleConverter: the LIST of generated rules (C07)
+# A list of Rule objects is modelled as the bag of the records (snapshots) of its elements; every Rule in these lists is a temporary built by one
+# call chain, so its snapshot is its final state (the engine refuses to store a record that is still reachable under a name).
+
+
+def _set_fn(name, ctx, idx, elem, elem_type, body):
+    """A set-valued specification function  name[ctx](idx) = {elem | body}.  The CONTEXT arguments (records / dicts / sets: e.g. the parsed diagram) must be
+    closed terms of the verification condition; they are baked into the symbol (one symbol per distinct context, named by a digest of the context terms), and the
+    definitional axiom quantifies over the INDEX arguments and the element only -- never over arrays, which keeps the VCs inside the fragment where z3 / cvc5 can
+    also find counter-models (an axiom quantified over an array-valued argument makes every 'sat' answer 'unknown'). Conservative extension per context."""
+    import hashlib
+    from pyvc.vals import parse_type, sort_of, to_term
+    from pyvc.state import OutOfSubset
+    ctypes_ = {k: parse_type(v) for k, v in ctx.items()}
+    itypes = {k: parse_type(v) for k, v in idx.items()}
+    et = parse_type(elem_type)
+    rng = z3.ArraySort(sort_of(et), z3.BoolSort())
+    syms = {}
+
+    def fn(eng, st, *args):
+        cvs = [eng.reg.as_membership(eng, a_) if t[0] in ("bag", "set") else eng.typed(a_, t) for a_, t in zip(args[:len(ctypes_)], ctypes_.values())]
+        ivs = [eng.typed(a_, t) for a_, t in zip(args[len(ctypes_):], itypes.values())]
+        cterms = [t for v in cvs for t in eng.reg.flatten(v)]
+        iterms = [t for v in ivs for t in eng.reg.flatten(v)]
+        text = " ".join(t.sexpr() for t in cterms)
+        if "@" in text:
+            raise OutOfSubset(f"specification function {name}: context argument depends on a bound variable")
+        key = name + ("!" + hashlib.md5(text.encode()).hexdigest()[:8] if cterms else "")
+        if key not in syms:
+            syms[key] = z3.Function(key, *[t.sort() for t in iterms], rng) if iterms else z3.Const(key, rng)
+        f_ = syms[key]
+        if key not in eng.axioms_used:
+            eng.axioms_used[key] = z3.BoolVal(True)
+            saved_bound, saved_spec, saved_q = dict(eng.bound), eng.spec, getattr(eng, "qdepth", 0)
+            eng.spec, eng.qdepth = True, 80
+            try:
+                pvs = {pn: eng.bvar("ax!" + pn, pt) for pn, pt in itypes.items()}
+                ev_ = eng.bvar("ax!" + elem, et)
+                eng.bound = dict(zip(ctypes_, cvs))
+                eng.bound.update(pvs)
+                eng.bound[elem] = ev_
+                eng.qdepth = 81
+                from pyvc.state import State as _S
+                b_ = eng.truth(eng.ev1(eng.reg.parse_spec(body), _S()))
+                consts = [c for v in pvs.values() for c in eng.reg.consts_of(v)] + eng.reg.consts_of(ev_)
+                arr = f_(*[t for v in pvs.values() for t in eng.reg.flatten(v)]) if iterms else f_
+                app = z3.Select(arr, to_term(ev_))
+                eng.axioms_used[key] = z3.ForAll(consts, app == b_, patterns=[app])
+            finally:
+                eng.bound, eng.spec, eng.qdepth = saved_bound, saved_spec, saved_q
+        return V(("bag", et), f_(*iterms) if iterms else f_)
+
+    REG.specfuns[name] = fn
+    return fn
+
+
+PD = "ParsedDependencies"
+_set_fn("one_filter", {}, dict(a="Node"), "f", "Filter", "f == mk_filter_name(a)")
+# is_not_drawn(pd, a, t): t is ANOTHER component that a has NO arrow to:  t in K - {a} - T(a)
+REG.macro("is_not_drawn", ["pd", "a", "t"], "(t in pd.all_modules) and t != a and not ((a in pd.dependencies) and (t in pd.dependencies[a]))")
+# the name filters of the drawn targets of a / of the other components a has no arrow to, in the diagram pd
+_set_fn("pos_objs", dict(pd=PD), dict(a="Node"), "f", "Filter", "exists(Node, lambda t: (t in pd.dependencies[a]) and f == mk_filter_name(t))")
+_set_fn("neg_objs", dict(pd=PD), dict(a="Node"), "f", "Filter", "exists(Node, lambda t: is_not_drawn(pd, a, t) and f == mk_filter_name(t))")
+# rule_rec(a, O, s, so, sn): THE record of a finished rule 'modules named a <verb> import modules <O>': subject = exactly the component a (by name),
+# direction import, the verb flags, no 'except', no 'anything', default matcher, object side closed. Every field is fixed, so equality with it pins the whole Rule.
+REG.macro("rule_rec", ["a", "O", "v_should", "v_should_only", "v_should_not"],
+          "new(Rule, _rule_matcher_class=class_DefaultRuleMatcher(), _modules_to_check_to_be_specified_next=False, _configuration=new(RuleConfiguration, "
+          "modules_to_check=one_filter(a), modules_to_check_against=O, should=v_should, should_only=v_should_only, should_not=v_should_not, "
+          "except_present=False, import_=True, rule_object_anything=False))")
+# R+(a): the positive rule of a component with arrows: objects = exactly its drawn targets, should_only in the default mode / should otherwise
+REG.macro("rule_pos", ["pd", "a", "so"], "rule_rec(a, pos_objs(pd, a), not so, so, False)")
+# R-(a): the should_not rule of a component: objects = exactly the other components it has no arrow to
+REG.macro("rule_neg", ["pd", "a"], "rule_rec(a, neg_objs(pd, a), False, False, True)")
+REG.macro("has_neg", ["pd", "a"], "exists(Node, lambda t: is_not_drawn(pd, a, t))")
+REG.macro("pos_rules_are", ["R", "pd", "so"], "forall(Rule, lambda r: (r in R) == exists(Node, lambda a: (a in pd.dependencies) and r == rule_pos(pd, a, so)))")
+REG.macro("neg_rules_are", ["R", "pd", "K"], "forall(Rule, lambda r: (r in R) == exists(Node, lambda a: (a in K) and has_neg(pd, a) and r == rule_neg(pd, a)))")
+REG.add(Contract(f"{D2R}.__init__", module=M_D2R, kind="method", params=dict(self=D2R, should_only_rule="Bool"), returns="None", modifies=["self"],
+                 ensures=["self._should_only_rule == should_only_rule"], properties=["C07"]))
+REG.add(Contract(f"{D2R}._convert_should_rules", module=M_D2R, kind="method", params=dict(self=D2R, dependencies=PD), returns="Bag[Rule]",
+                 # C07: exactly one positive rule per component with arrows, towards exactly its drawn targets, verb by mode
+                 ensures=["pos_rules_are(result, dependencies, self._should_only_rule)"], properties=["C07"]))
+REG.add(Contract(f"{D2R}._convert_should_not_rules", module=M_D2R, kind="classmethod", params=dict(parsed_dependencies=PD), returns="Bag[Rule]",
+                 # C07: for EVERY component (with or without arrows) one should_not rule towards exactly the other components it has no arrow to
+                 # (none when it has an arrow to every other component)
+                 ensures=["neg_rules_are(result, parsed_dependencies, parsed_dependencies.all_modules)"],
+                 locals=dict(rules="Bag[Rule]", imported="Set[Node]", all_other_modules="Set[Node]", not_imported="Set[Node]", sorted_not_imported="Bag[Node]"),
+                 loops={0: dict(sig="for possible_importer in sorted(parsed_dependencies.all_modules)", invariant=["neg_rules_are(rules, parsed_dependencies, seen)"])},
+                 # the forbidden objects of a component, stated on plain sets of names (a decidable fragment: a wrong set is REFUTED with a small model, not merely undecided)
+                 ghost_at={"if not_imported": ["forall(Node, lambda t: (t in not_imported) == is_not_drawn(parsed_dependencies, possible_importer, t))"],
+                           "rules.append(": ["forall(Node, lambda t: (t in sorted_not_imported) == is_not_drawn(parsed_dependencies, possible_importer, t))"]},
+                 properties=["C07"]))
+REG.add(Contract(f"{D2R}._convert_should_not_rules@sets", qualname=f"{D2R}._convert_should_not_rules", module=M_D2R, kind="classmethod", params=dict(parsed_dependencies=PD), returns="Bag[Rule]",
+                 # second contract of the SAME function, nothing assumed about the rule list (trivial invariant, no postcondition): only the set-level facts of one iteration, so
+                 # their VCs have no quantifier over rule records and a wrong set of forbidden objects is REFUTED with a small model (in the full contract above the same ghost
+                 # assertions sit behind the invariant over rule records, where the solvers can prove but not find counter-models)
+                 locals=dict(rules="Bag[Rule]", imported="Set[Node]", all_other_modules="Set[Node]", not_imported="Set[Node]", sorted_not_imported="Bag[Node]"),
+                 loops={0: dict(sig="for possible_importer in sorted(parsed_dependencies.all_modules)", invariant=["True"])},
+                 ghost_at={"if not_imported": ["forall(Node, lambda t: (t in not_imported) == is_not_drawn(parsed_dependencies, possible_importer, t))"],
+                           "rules.append(": ["forall(Node, lambda t: (t in sorted_not_imported) == is_not_drawn(parsed_dependencies, possible_importer, t))",
+                                             "exists(Node, lambda t: is_not_drawn(parsed_dependencies, possible_importer, t))"]},
+                 properties=["C07"]))
+REG.add(Contract(f"{D2R}.convert", module=M_D2R, kind="method", params=dict(self=D2R, dependencies=PD), returns="Bag[Rule]",
+                 # C07: the rule list is exactly {R+(a) | a has arrows} + {R-(a) | a in K, K - {a} - T(a) non-empty}
+                 ensures=["forall(Rule, lambda r: (r in result) == (exists(Node, lambda a: (a in dependencies.dependencies) and r == rule_pos(dependencies, a, self._should_only_rule)) or "
+                          "exists(Node, lambda a: (a in dependencies.all_modules) and has_neg(dependencies, a) and r == rule_neg(dependencies, a))))"],
+                 locals=dict(should_rules="Bag[Rule]", should_not_rules="Bag[Rule]"),
+                 properties=["C07"]))
+
+# ---------------------------------------------------------------- DiagramRule (C07, C13): builder, configuration check, composition
+# A Rule IS-A RuleApplier: applier_of(record of the rule) is the interface object whose outcome on an evaluable is ra_errors / ra_violated / ra_message.
+_f_applier_of = z3.Function("applier_of", vals.sort_of(("obj", "Rule")), RA)
+REG.specfuns["applier_of"] = lambda eng, st, r: V(("opaque", "RuleApplier"), _f_applier_of(vals.to_term(r)))
+REG.upcasts[(("obj", "Rule"), ("opaque", "RuleApplier"))] = _f_applier_of
+PATH = vals.opaque_sort("Path")
+# the diagram file: its text as read (open(p).read().strip(), library: assumed) and whether that text has a non-empty part between @startuml and @enduml
+# (puml_text / puml_tagged: macros defined with the parser contracts below)
+REG.ctors["PumlParser"] = lambda reg, eng, st, args, kwargs, node: [(st, V(("obj", "PumlParser"), {}))]   # class without __init__, no state
+vals.declare_obj("DiagramRule", dict(_file_path="Opt[Opaque[Path]]", _name_relative_to_root="Opt[Node]", _should_only_rule="Bool"))
+DR = "DiagramRule"
+REG.class_bases[DR] = ["FileRule", "BaseModuleSpecifier", "RuleApplier"]
+_DR_SAME = lambda *changed: [f"self.{f} == old(self).{f}" for f in ("_file_path", "_name_relative_to_root", "_should_only_rule") if f not in changed]
+# the abstract fluent interface (query_language/base_language.py): bodies are 'pass'; the interface promises nothing beyond the types
+M_BL = "pytestarch.query_language.base_language"
+REG.add(Contract("FileRule.from_file", status="abstract", kind="method", params=dict(self="Opaque[FileRule]", file_path="Opaque[Path]"), returns="Opaque[BaseModuleSpecifier]",
+                 note="abstract: sets the file the rules are read from"))
+REG.add(Contract("BaseModuleSpecifier.with_base_module", status="abstract", kind="method", params=dict(self="Opaque[BaseModuleSpecifier]", name_relative_to_root="Node"),
+                 returns="Opaque[RuleApplier]", note="abstract: component names are relative to this module"))
+REG.add(Contract("BaseModuleSpecifier.base_module_included_in_module_names", status="abstract", kind="method", params=dict(self="Opaque[BaseModuleSpecifier]"),
+                 returns="Opaque[RuleApplier]", note="abstract: component names are fully qualified"))
+REG.add(Contract(f"{DR}.__init__", module=M_DR, kind="method", view="string", params=dict(self=DR, should_only_rule="Bool"), defaults=dict(should_only_rule="True"), returns="None",
+                 modifies=["self"], ensures=["is_none(self._file_path)", "is_none(self._name_relative_to_root)", "self._should_only_rule == should_only_rule"],
+                 properties=["C07", "C13"]))
+REG.add(Contract(f"{DR}.from_file", module=M_DR, kind="method", view="string", params=dict(self=DR, file_path="Opaque[Path]"), returns=DR, modifies=["self"],
+                 ensures=["(not is_none(self._file_path)) and unwrap(self._file_path) == file_path", "result == self"] + _DR_SAME("_file_path"),
+                 impl_of="FileRule.from_file", properties=["C07", "C13"]))
+REG.add(Contract(f"{DR}.with_base_module", module=M_DR, kind="method", view="string", params=dict(self=DR, name_relative_to_root="Node"), returns=DR, modifies=["self"],
+                 ensures=["(not is_none(self._name_relative_to_root)) and unwrap(self._name_relative_to_root) == name_relative_to_root", "result == self"] + _DR_SAME("_name_relative_to_root"),
+                 impl_of="BaseModuleSpecifier.with_base_module", properties=["C07", "C13"]))
+REG.add(Contract(f"{DR}.base_module_included_in_module_names", module=M_DR, kind="method", view="string", params=dict(self=DR), returns=DR,
+                 ensures=["result == self"], impl_of="BaseModuleSpecifier.base_module_included_in_module_names", properties=["C07", "C13"]))
+REG.add(Contract(f"{DR}._assert_required_configuration_present", module=M_DR, kind="method", view="string", params=dict(self=DR), returns="None",
+                 # C13: a diagram rule without a file never produces a verdict
+                 raises=[("ImproperlyConfigured", "is_none(self._file_path)")], properties=["C07", "C13"]))
+_PFX = lambda pd, p: [
+    f"forall(Str, lambda x: (x in result.all_modules) == exists(Str, lambda m: (m in {pd}.all_modules) and x == prefixed({p}, m)))",
+    f"forall(Str, lambda k: (k in result.dependencies) == exists(Str, lambda m: (m in {pd}.dependencies) and k == prefixed({p}, m)))",
+    f"forall(Str, Str, lambda m, x: implies(m in {pd}.dependencies, (x in result.dependencies[prefixed({p}, m)]) == "
+    f"exists(Str, lambda v: (v in {pd}.dependencies[m]) and x == prefixed({p}, v))))"]
+REG.add(Contract(f"{DR}._add_base_module_path", module=M_DR, kind="method", view="string", params=dict(self=DR, parsed_dependencies=PD), returns=PD, pure=True,
+                 # C07: with_base_module(p) == writing every component (declared, dependor, dependee) as p.name; without it the names stay as written
+                 ensures=_PFX("parsed_dependencies", "self._name_relative_to_root"), properties=["C07"]))
+_CONV = ("forall(Rule, lambda r: (r in result) == (exists(Node, lambda a: (a in dependencies.dependencies) and r == rule_pos(dependencies, a, self._should_only_rule)) or "
+         "exists(Node, lambda a: (a in dependencies.all_modules) and has_neg(dependencies, a) and r == rule_neg(dependencies, a))))")
+REG.add(Contract(f"{DR}._convert_to_rules", module=M_DR, kind="method", view="string", params=dict(self=DR, dependencies=PD), returns="Bag[Rule]",
+                 ensures=[_CONV], properties=["C07"]))
+_ERR = "exists(Rule, lambda r: (r in RULES) and ra_errors(applier_of(r), evaluable))"
+_VIOL = "exists(Rule, lambda r: (r in RULES) and ra_violated(applier_of(r), evaluable))"
+_DERR = "exists(Rule, lambda r: in_dr_rules(self, r) and ra_errors(applier_of(r), evaluable))"
+_DVIOL = "exists(Rule, lambda r: in_dr_rules(self, r) and ra_violated(applier_of(r), evaluable))"
+REG.add(Contract(f"{DR}._apply_rules", module=M_DR, kind="classmethod", view="string", params=dict(rule_appliers="Bag[Rule]", evaluable="Opaque[Evaluable]"), returns="None",
+                 # C07: ALL rules are evaluated; the aggregate fails iff some rule is violated; an erroring rule is never a verdict
+                 raises=[("RuleEvaluationError", _ERR.replace("RULES", "rule_appliers")),
+                         ("AssertionError", "(not " + _ERR.replace("RULES", "rule_appliers") + ") and " + _VIOL.replace("RULES", "rule_appliers"))],
+                 properties=["C07", "C13"]))
+# the rules a configured DiagramRule stands for: converted rules of the prefixed parse result of its file
+REG.macro("dr_pd", ["d"], "d._add_base_module_path(PumlParser().parse(unwrap(d._file_path)))")
+REG.macro("in_dr_rules", ["d", "r"], "exists(Node, lambda a: (a in dr_pd(d).dependencies) and r == rule_pos(dr_pd(d), a, d._should_only_rule)) or "
+          "exists(Node, lambda a: (a in dr_pd(d).all_modules) and has_neg(dr_pd(d), a) and r == rule_neg(dr_pd(d), a))")
+REG.macro("dr_file_ok", ["d"], "(not is_none(d._file_path)) and puml_tagged(puml_text(unwrap(d._file_path)))")
+REG.add(Contract(f"{DR}.assert_applies", module=M_DR, kind="method", view="string", params=dict(self=DR, evaluable="Opaque[Evaluable]"), returns="None",
+                 raises=[
+                     # C13: no file / no diagram between the tags -> configuration / parsing error, never a verdict (whether or not a base module was chosen)
+                     ("ImproperlyConfigured", "is_none(self._file_path)"),
+                     ("PumlParsingError", "(not is_none(self._file_path)) and not puml_tagged(puml_text(unwrap(self._file_path)))"),
+                     # C07: otherwise exactly the outcome of MultipleRuleApplier over the converted rules of the prefixed parse result
+                     ("RuleEvaluationError", "dr_file_ok(self) and " + _DERR),
+                     ("AssertionError", "dr_file_ok(self) and (not " + _DERR + ") and " + _DVIOL)],
+                 impl_of="RuleApplier.assert_applies", properties=["C07", "C13"]))
+
+# ---------------------------------------------------------------- PumlParser.parse: the structure around the regex tokenisation (C06, C13)
+# Library (assumed): re.compile with flags, re.search, re.finditer, Match.group; open / read (c_parser.py); str.strip (engine model: an uninterpreted function).
+# The regular expressions themselves are opaque here: a compiled pattern is re_compiled(text of the regex, flags); what re.search / re.finditer return for a pattern
+# and a text is an uninterpreted relation (the 'token relation' of DESIGN section 4, C06). What is PROVED is everything the parser does around it.
+PATTERN = vals.opaque_sort("Pattern")
+MATCH = vals.opaque_sort("Match")
+I_ = z3.IntSort()
+_f_re_compiled = z3.Function("re_compiled", S, I_, PATTERN)
+_f_re_search_none = z3.Function("re_search_none", PATTERN, S, z3.BoolSort())
+_f_re_search_val = z3.Function("re_search_val", PATTERN, S, MATCH)
+_f_re_found = z3.Function("re_found", PATTERN, S, MATCH, z3.BoolSort())
+_f_group_i = z3.Function("match_group_i", MATCH, I_, S)
+_f_group_none = z3.Function("match_group_none", MATCH, S, z3.BoolSort())
+_f_group_val = z3.Function("match_group_val", MATCH, S, S)
+REG.module_constants["re.DOTALL"] = V(("int",), z3.IntVal(16))      # the real values of the flags (int(re.DOTALL) == 16, int(re.MULTILINE) == 8)
+REG.module_constants["re.MULTILINE"] = V(("int",), z3.IntVal(8))
+REG.specfuns["re_compiled"] = lambda eng, st, p, f: V(("opaque", "Pattern"), _f_re_compiled(p.x, f.x))
+REG.specfuns["re_search_obj"] = lambda eng, st, p, s: V(("opt", ("opaque", "Match")), (_f_re_search_none(p.x, s.x), V(("opaque", "Match"), _f_re_search_val(p.x, s.x))))
+REG.specfuns["re_found"] = lambda eng, st, p, s, m: vbool(_f_re_found(p.x, s.x, m.x))
+REG.specfuns["match_group_i"] = lambda eng, st, m, i: V(("str",), _f_group_i(m.x, i.x))
+REG.specfuns["match_group"] = lambda eng, st, m, g: V(("opt", ("str",)), (_f_group_none(m.x, g.x), V(("str",), _f_group_val(m.x, g.x))))
+REG.add(Contract("re.compile@flags", qualname="re.compile", status="assumed", params=dict(pattern="Str", flags="Int"), returns="Opaque[Pattern]", defn="re_compiled(pattern, flags)",
+                 note="re.compile(regex, flags): the compiled pattern is a function of the regex text and the flags"))
+REG.contracts["re.compile"].alt = REG.contracts["re.compile@flags"]
+REG.add(Contract("re.search", status="assumed", params=dict(pattern="Opaque[Pattern]", string="Str"), returns="Opt[Opaque[Match]]", defn="re_search_obj(pattern, string)",
+                 note="re.search: None or a match object, a function of pattern and text (uninterpreted)"))
+REG.add(Contract("re.finditer", status="assumed", params=dict(pattern="Opaque[Pattern]", string="Str"), returns="Bag[Opaque[Match]]",
+                 ensures=["forall(Opaque[Match], lambda m: (m in result) == re_found(pattern, string, m))"],
+                 note="re.finditer: the match objects of the pattern in the text, as a collection (the callers only add what they extract to sets / dicts, so the order is irrelevant); "
+                      "WHICH matches there are is the uninterpreted token relation re_found"))
+REG.method_family["Match"] = "Match"
+REG.add(Contract("Match.group", status="assumed", kind="method", params=dict(self="Opaque[Match]", group="Str"), returns="Opt[Str]", defn="match_group(self, group)",
+                 note="m.group(name): the text captured by the named group, None when the group did not take part in the match"))
+REG.add(Contract("Match.group@int", qualname="Match.group", status="assumed", kind="method", params=dict(self="Opaque[Match]", group="Int"), returns="Str", defn="match_group_i(self, group)",
+                 note="m.group(i) for a group that takes part in EVERY match of its pattern (the only use: group 1 of '.*@startuml(.+)@enduml.*', which is not optional): a str"))
+REG.contracts["Match.group"].alt = REG.contracts["Match.group@int"]
+
+# the three regular expressions as the source builds them (evaluated from the module constants on every run; a changed constant changes these terms)
+TAG_REGEX = r"'.*' + '@startuml' + '(' + '.+' + ')' + '@enduml' + '.*'"
+REG.macro("tag_pattern", [], f"re_compiled({TAG_REGEX}, 16)")
+# text has a (non-empty) diagram between the tags  /  that diagram text
+REG.macro("puml_has_tags", ["text"], "not is_none(re_search_obj(tag_pattern(), text))")
+REG.macro("puml_inner", ["text"], "match_group_i(unwrap(re_search_obj(tag_pattern(), text)), 1)")
+REG.add(Contract(f"{PP}._named_group", module=M_DP, kind="classmethod", view="string", params=dict(name="Str", content="Str"), returns="Str",
+                 defn="'(?P<' + name + '>' + content + ')'", properties=["C06"]))
+REG.add(Contract(f"{PP}._component_optional_brackets", module=M_DP, kind="classmethod", view="string", params=dict(group_name="Str"), returns="Str",
+                 # an optional '[' , the named group over [\\w\\d.]+ , an optional ']'
+                 defn=r"'(\\[)?' + '(?P<' + group_name + '>' + '(\\w|\\d|\\.)+' + ')' + '(\\])?'", properties=["C06"]))
+REG.add(Contract(f"{PP}._remove_content_outside_start_and_end_tags", module=M_DP, kind="classmethod", view="string", params=dict(content="Str"), returns="Str",
+                 # C06 / C13: a text without '@startuml <something> @enduml' is rejected with a parsing error; otherwise exactly the text between the tags (group 1) is kept
+                 raises=[("PumlParsingError", "not puml_has_tags(content)")], ensures=["result == puml_inner(content)"],
+                 properties=["C06", "C13"]))
+# the two tokenising loops: bounded (native stand-in native/diagrams.py bounded_puml); their results enter parse as two uninterpreted functions of the diagram text
+_f_decl = z3.Function("puml_decl_tokens", S, z3.ArraySort(PM["sort"], z3.BoolSort()))
+_f_dep_dom = z3.Function("puml_dep_dom", S, z3.ArraySort(S, z3.BoolSort()))
+_f_dep_val = z3.Function("puml_dep_val", S, z3.ArraySort(S, z3.ArraySort(S, z3.BoolSort())))
+REG.specfuns["puml_decl_tokens"] = lambda eng, st, t: V(("set", ("data", "PumlModule")), _f_decl(t.x))
+REG.specfuns["puml_dep_tokens"] = lambda eng, st, t: V(("dict", ("str",), ("set", ("str",))), (_f_dep_dom(t.x), _f_dep_val(t.x)))
+REG.add(Contract(f"{PP}._retrieve_modules_declared_outside_dependencies", module=M_DP, kind="classmethod", view="string", status="bounded", params=dict(content="Str"),
+                 returns="Set[PumlModule]", defn="puml_decl_tokens(content)",
+                 note="BOUNDED (re.finditer over the whole text with capture groups): the declared (name, alias) pairs are a function of the diagram text; which pairs -- native stand-in C06.puml-parse-vs-generated-relation"))
+REG.add(Contract(f"{PP}._retrieve_dependencies_and_inline_modules", module=M_DP, kind="classmethod", view="string", status="bounded", params=dict(content="Str"),
+                 returns="Dict[Str,Set[Str]]", defn="puml_dep_tokens(content)",
+                 note="BOUNDED (re.finditer over the whole text with capture groups): the drawn dependor -> dependees map as written (aliases unresolved) is a function of the diagram text"))
+REG.macro("puml_text", ["p"], "str_strip(file_read(file_of(p)))")
+REG.specfuns["str_strip"] = lambda eng, st, s: V(("str",), z3.Function("str_strip", S, S)(s.x))
+REG.macro("puml_tagged", ["t"], "puml_has_tags(t)")
+REG.macro("parse_ok", ["pd", "modules", "dependencies"],
+          "exists(Dict[Str,Str], lambda A: by_alias_ok(modules, A) and alias_values_ok(modules, A) and "
+          "forall(Str, lambda k: (k in pd.dependencies) == exists(Str, lambda d: (d in dependencies) and k == resolved(A, d))) and "
+          "forall(Str, Str, lambda k, x: implies(k in pd.dependencies, (x in pd.dependencies[k]) == exists(Str, Str, lambda d, e: (d in dependencies) and resolved(A, d) == k and (e in dependencies[d]) and x == resolved(A, e))))) and "
+          "forall(Str, lambda x: (x in pd.all_modules) == (exists(PumlModule, lambda m: (m in modules) and x == pm_name(m)) or (x in pd.dependencies) "
+          "or exists(Str, lambda k: (k in pd.dependencies) and (x in pd.dependencies[k]))))")
+REG.add(Contract(f"{PP}.parse", module=M_DP, kind="method", view="string", params=dict(self=PP, file_path="Opaque[Path]"), returns=PD, pure=True,
+                 # C13: a file without the tags is rejected, never parsed to an empty diagram
+                 raises=[("PumlParsingError", "not puml_has_tags(puml_text(file_path))")],
+                 # C06: components and dependencies are exactly those of the tokens found BETWEEN the tags, aliases resolved, lines merged
+                 ensures=["parse_ok(result, puml_decl_tokens(puml_inner(puml_text(file_path))), puml_dep_tokens(puml_inner(puml_text(file_path))))"],
+                 locals=dict(content="Str", relevant_content="Str", modules="Set[PumlModule]", dependencies="Dict[Str,Set[Str]]"),
+                 note="pure: within one interpreter run the result is a function of the file (with two declarations of ONE alias for different names the choice depends on the hash seed: reported)",
+                 impl_of="DiagramParser.parse", properties=["C06", "C13", "C07"]))
+REG.add(Contract("DiagramParser.parse", status="abstract", kind="method", params=dict(self="Opaque[DiagramParser]", file_path="Opaque[Path]"), returns=PD,
+                 note="abstract base (body: pass): a diagram parser maps a file to components and dependencies"))
+
+# ---------------------------------------------------------------- C06: per-line language facts about the regexes the parser builds (regex as data)
+# On every run the REAL functions are executed once on the empty text with re.compile intercepted (child interpreter, PYTHONPATH = the source under
+# verification): that yields the regex texts and flags the current source builds. They are parsed with CPython's own re._parser and the fragment they use
+# (literals, \w \d \s, '.', groups, ?, +, *, |, ^ $) is translated to SMT-LIB RegLan. Two translations: LO (an under-approximation: \w \d \s restricted to
+# ASCII) for 'this line IS matched' claims, HI (an over-approximation: the non-ASCII characters are allowed in every class) for 'every match of the whole
+# line binds the groups to ...' claims. ^ and $ are the empty word: the lemmas are about ONE line without a newline matched as a whole.
+# NOT covered (bounded stand-in only): which of several possible matches re.finditer picks in a multi-line text (leftmost, greedy, the unanchored second
+# alternative, \s+ running across newlines).
+_PUML_RE = {}
+
+
+def _puml_regexes():
+    if not _PUML_RE:
+        import subprocess, sys, json, os
+        src = os.environ.get("PYVC_REPO_SRC", "/repo/src")
+        script = ("import re, json\n"
+                  "from pytestarch.diagram_extension import diagram_parser as dp\n"
+                  "pats = []\n"
+                  "orig = re.compile\n"
+                  "def cap(p, flags=0):\n"
+                  "    pats.append((p, int(flags)))\n"
+                  "    return orig(p, flags)\n"
+                  "dp.re.compile = cap\n"
+                  "dp.PumlParser._retrieve_modules_declared_outside_dependencies('')\n"
+                  "dp.PumlParser._retrieve_dependencies_and_inline_modules('')\n"
+                  "print(json.dumps(pats))\n")
+        env = dict(os.environ, PYTHONPATH=src)
+        out = subprocess.run([sys.executable, "-c", script], env=env, capture_output=True, text=True, timeout=60)
+        pats = json.loads(out.stdout.strip().splitlines()[-1])
+        _PUML_RE["module"], _PUML_RE["dependency"] = pats[0], pats[1]
+    return _PUML_RE
+
+
+_RS = z3.ReSort(S)
+
+
+def _rng(a, b):
+    return z3.Range(z3.StringVal(a), z3.StringVal(b))
+
+
+def _cls(cat, hi):
+    """character class of a CATEGORY_*; hi=True: over-approximation (every non-ASCII character allowed), else ASCII only"""
+    name = str(cat)
+    if name.endswith("WORD"):
+        lo = z3.Union(_rng("a", "z"), _rng("A", "Z"), _rng("0", "9"), z3.Re(z3.StringVal("_")))
+    elif name.endswith("DIGIT"):
+        lo = _rng("0", "9")
+    elif name.endswith("SPACE"):
+        lo = z3.Union(*[z3.Re(z3.StringVal(c)) for c in " \t\n\r\f\v"])
+    else:
+        raise ValueError(f"regex category {name} outside the translated fragment")
+    return z3.Union(lo, _rng("\x80", "\U0002ffff")) if hi else lo
+
+
+def _re2smt(tree, hi):
+    import re._constants as sc
+    parts = []
+    for op, av in tree:
+        if op is sc.LITERAL:
+            parts.append(z3.Re(z3.StringVal(chr(av))))
+        elif op is sc.ANY:
+            parts.append(z3.Union(_rng("\x00", "\t"), _rng("\x0b", "\U0002ffff")))   # '.' without DOTALL: anything but newline
+        elif op is sc.IN:
+            alts = []
+            for o2, a2 in av:
+                if o2 is sc.LITERAL:
+                    alts.append(z3.Re(z3.StringVal(chr(a2))))
+                elif o2 is sc.CATEGORY:
+                    alts.append(_cls(a2, hi))
+                else:
+                    raise ValueError(f"regex set item {o2} outside the translated fragment")
+            parts.append(alts[0] if len(alts) == 1 else z3.Union(*alts))
+        elif op is sc.MAX_REPEAT:
+            lo_, hi_, body = av
+            b = _re2smt(body, hi)
+            if (lo_, hi_) == (0, 1):
+                parts.append(z3.Option(b))
+            elif lo_ == 1 and hi_ == sc.MAXREPEAT:
+                parts.append(z3.Plus(b))
+            elif lo_ == 0 and hi_ == sc.MAXREPEAT:
+                parts.append(z3.Star(b))
+            else:
+                raise ValueError("regex repeat bounds outside the translated fragment")
+        elif op is sc.SUBPATTERN:
+            parts.append(_re2smt(av[3], hi))
+        elif op is sc.BRANCH:
+            parts.append(z3.Union(*[_re2smt(b, hi) for b in av[1]]))
+        elif op is sc.AT:
+            parts.append(z3.Re(z3.StringVal("")))
+        else:
+            raise ValueError(f"regex construct {op} outside the translated fragment")
+    if not parts:
+        return z3.Re(z3.StringVal(""))
+    return parts[0] if len(parts) == 1 else z3.Concat(*parts)
+
+
+def _puml_lang(which, hi=False):
+    import re._parser as sp
+    pat, flags = _puml_regexes()[which]
+    if flags != 8:
+        raise ValueError("the parser's line regexes are expected to be compiled with re.MULTILINE only")
+    return _re2smt(sp.parse(pat, flags), hi)
+
+
+REG.specfuns["puml_dep_line"] = lambda eng, st, line: vbool(z3.InRe(line.x, _puml_lang("dependency")))
+REG.specfuns["puml_decl_line"] = lambda eng, st, line: vbool(z3.InRe(line.x, _puml_lang("module")))
+# component names of the property: non-empty words over letters, digits, '_' and '.' (single identifiers or dotted module names); arrow texts: \w+; aliases: identifiers
+_NAME = z3.Plus(z3.Union(_rng("a", "z"), _rng("A", "Z"), _rng("0", "9"), z3.Re(z3.StringVal("_")), z3.Re(z3.StringVal("."))))
+_WORD = z3.Plus(z3.Union(_rng("a", "z"), _rng("A", "Z"), _rng("0", "9"), z3.Re(z3.StringVal("_"))))
+REG.specfuns["puml_name"] = lambda eng, st, x: vbool(z3.InRe(x.x, _NAME))
+REG.specfuns["puml_word"] = lambda eng, st, x: vbool(z3.InRe(x.x, _WORD))
+_DEP_FORMS = {
+    "bracketed_long_right": "'[' + a + '] --> [' + b + ']'", "bracketed_short_right": "'[' + a + '] -> [' + b + ']'", "bare_right": "a + ' --> ' + b",
+    "text_right": "'[' + a + '] -' + t + '-> [' + b + ']'", "mixed_right": "a + ' -> [' + b + ']'",
+    "bracketed_long_left": "'[' + b + '] <-- [' + a + ']'", "bracketed_short_left": "'[' + b + '] <- [' + a + ']'", "bare_left": "b + ' <-- ' + a",
+    "text_left": "'[' + b + '] <-' + t + '- [' + a + ']'", "mixed_left": "'[' + b + '] <- ' + a"}
+for _nm, _line in _DEP_FORMS.items():
+    REG.lemma(f"puml_dependency_regex_accepts_{_nm}", params=dict(a="Str", b="Str", t="Str"), requires=["puml_name(a)", "puml_name(b)", "puml_word(t)"],
+              ensures=[f"puml_dep_line({_line})"], view="string", properties=["C06"],
+              note="the dependency-line regex built by the current source matches this documented arrow form as a whole line, for ALL component names over the stated alphabet")
+_DECL_FORMS = {
+    "component_name": "'component ' + a", "brackets": "'[' + a + ']'", "component_brackets": "'component [' + a + ']'",
+    "component_name_as": "'component ' + a + ' as ' + t", "brackets_as": "'[' + a + '] as ' + t", "component_brackets_as": "'component [' + a + '] as ' + t"}
+for _nm, _line in _DECL_FORMS.items():
+    REG.lemma(f"puml_declaration_regex_accepts_{_nm}", params=dict(a="Str", t="Str"), requires=["puml_name(a)", "puml_word(t)"],
+              ensures=[f"puml_decl_line({_line})"], view="string", properties=["C06"],
+              note="the component-declaration regex built by the current source matches this documented declaration form as a whole line")
+
+
+# ---- direction: a right-arrow line is matched (as a whole line) by the FIRST alternative only, a left-arrow line by the SECOND only (HI translation: an
+# over-approximation of the alternative's language, so 'not matched' is sound). Hence for '[a] --> [b]' the groups dependor2 / dependee2 are None and the pair
+# is read from dependor1 / dependee1, and conversely. WHICH substrings the two groups of the matching alternative capture is not proved (see notes).
+def _puml_alt(which, i, hi):
+    import re._parser as sp, re._constants as sc
+    pat, flags = _puml_regexes()[which]
+    tree = list(sp.parse(pat, flags))
+    if len(tree) != 1 or tree[0][0] is not sc.BRANCH or len(tree[0][1][1]) != 2:
+        raise ValueError("the line regex is expected to be one top-level alternation of two alternatives")
+    return _re2smt(tree[0][1][1][i], hi)
+
+
+REG.specfuns["puml_dep_alt1"] = lambda eng, st, line: vbool(z3.InRe(line.x, _puml_alt("dependency", 0, True)))
+REG.specfuns["puml_dep_alt2"] = lambda eng, st, line: vbool(z3.InRe(line.x, _puml_alt("dependency", 1, True)))
+REG.specfuns["puml_dep_alt1_lo"] = lambda eng, st, line: vbool(z3.InRe(line.x, _puml_alt("dependency", 0, False)))
+REG.specfuns["puml_dep_alt2_lo"] = lambda eng, st, line: vbool(z3.InRe(line.x, _puml_alt("dependency", 1, False)))
+for _nm, _line in _DEP_FORMS.items():
+    _right = _nm.endswith("right")
+    REG.lemma(f"puml_dependency_regex_direction_{_nm}", params=dict(a="Str", b="Str", t="Str"), requires=["puml_name(a)", "puml_name(b)", "puml_word(t)"],
+              ensures=[f"puml_dep_alt{1 if _right else 2}_lo({_line})", f"not puml_dep_alt{2 if _right else 1}({_line})"], view="string", properties=["C06"],
+              note="the arrow direction selects the alternative: the other alternative does not match the line, so its dependor / dependee groups are None")
